@@ -10,6 +10,8 @@ IVS = [(0, 0), (0, 1), (1, 2), (0, 2), (1, 1), (2, 3)]
 
 
 def main():
+    import astlib
+    astlib.AUTO_FUNCS = 0.2       # sqrt exp ln log pow at exact points in a fifth of the generated formulas
     rep = core.Report("C20")
     quick = core.tier() == "quick"
     rng = random.Random(core.seed() * 7919 + 20)
